@@ -375,3 +375,43 @@ def gate_of(b, loop_blocks, bb):
     cands = [i for i, j, st in b.stmts() if i in loop_blocks and i != bb and st["r"]["k"] == "Bin" and st["r"]["op"] in ("Lt", "Gt", "Le", "Ge")
              and b.dominates(i, bb)]
     return max(cands, key=lambda g: len(b.dom.get(g, ()))) if cands else bb
+
+
+def read_count_uses(b, c):
+    """how the byte count returned by a `read` call is used: {'cmp', 'arith', 'arg', 'ret'} (a count that is only compared was not
+    used to bound what is consumed: a short read goes unnoticed)"""
+    rl, _ = result_local(b, c)
+    hold = set(copies_of(b, rl))
+    for x in b.calls:
+        if (re.search(r"\bTry>?::branch$", x.orig_name or x.name) or re.search(r"Result::<T, E>::map_err$", x.name)) and x.args and op_local(x.args[0]) in hold:
+            hold |= set(copies_of(b, x.dest[0]))
+    counts = set()
+    for i, j, st in b.stmts():
+        r = st["r"]
+        if r["k"] == "Use" and r["o"][0]["k"] in ("cp", "mv"):
+            pp = r["o"][0]["p"]
+            if pp[0] in hold and any(isinstance(e, dict) and e.get("d") in ("Ok", "Continue") for e in pp[1:]):
+                counts |= set(copies_of(b, st["p"][0]))
+    uses = set()
+    if not counts:
+        return uses, counts
+    rh = return_holders(b)
+    for i, j, st in b.stmts():
+        r = st["r"]
+        ls = [op_local(o) for o in r.get("o", []) if op_local(o) is not None]
+        if not any(l in counts for l in ls):
+            continue
+        if r["k"] == "Bin" and r["op"] in ("Eq", "Ne", "Lt", "Le", "Gt", "Ge"):
+            uses.add("cmp")
+        elif r["k"] == "Bin":
+            uses.add("arith")
+        elif r["k"] == "Agg":
+            uses.add("arg")
+        elif r["k"] in ("Use", "Cast") and st["p"][0] in rh:
+            uses.add("ret")
+    for x in b.calls:
+        if any(op_local(a) in counts for a in x.args):
+            uses.add("arg")
+    if counts & rh:
+        uses.add("ret")
+    return uses, counts
